@@ -1,11 +1,254 @@
+import NA.Proofs.C09Top
 import NA.Proofs.C09Skel
+import NA.Spec.SessDevice
 /-!
-# C09 — any device-side failure stops the run and is reported truthfully (first stage: T-gen)
+# C09 — any device-side failure stops the run and is reported truthfully
+
+Property theorems only.  `runProg b env` is the whole run of `drc` / of the
+`device.ApproveOrCompare` call inside `do-approve` for backend `b` against the device
+`env.dev : List Ev → Reply` — an **arbitrary function of the whole history** (adversarial: error
+text, unexpected output, silence, close, HTTP status, malformed body, failed job, at any position,
+any number of times) — with an arbitrary change script `env.plan` of any length.
+
+`badFull` is a device-side failure as the property states it; `badChecked` is the part of it the
+code inspects (everything except: error text / unexpected output / garbled echo in the reply to a
+command whose output the code does not look at, and a connection close that net/http hides by
+replaying the request).
+
+* The statements with `badFull` are **false** of the unchanged code: three counterexamples below
+  (findings F-C09a, F-C09b, F-C09c; replayed on the real code by the harness).
+* With `badChecked` they are proved for all devices, scripts, positions and kinds
+  (`…_partial`); `badChecked → badFull` (`badChecked_imp_badFull`), and the findings are exactly
+  the replies with `badFull ∧ ¬badChecked`.
 -/
 namespace NA.C09
+open NA.Sess NA.Apply NA.Spec.C09
+
+/-- **no_change_after_fault** (for every backend, device, script length, fault position and kind):
+nothing after a bad reply is a change command, a save step or a start-up file copy — only
+session clean-up.
+
+Full statement (false, see the counterexamples): the same with `badFull b`. -/
+theorem no_change_after_fault_partial (b : Backend) (env : Env) :
+    NoChangeAfterFault (badChecked b) (runProg b env).tr :=
+  (safe_iff_noChangeAfterFault _ _).mp (run_inv b env).safe
+
+/-- **no_save_after_fault**: in particular no `write memory`, commit, job poll or scp. -/
+theorem no_save_after_fault_partial (b : Backend) (env : Env) (pre post : List Ev) (ρ : Role) (r : Reply)
+    (hsplit : (runProg b env).tr = pre ++ Ev.got ρ r :: post) (hbad : badChecked b ρ r = true) :
+    (∀ ls, Ev.sent .save ls ∉ post) ∧ (∀ w, Ev.scp w ∉ post) ∧ (∀ ls, Ev.sent .change ls ∉ post) := by
+  have h := no_change_after_fault_partial b env pre post ρ r hsplit hbad
+  refine ⟨fun ls hm => ?_, fun w hm => ?_, fun ls hm => ?_⟩ <;> simpa [isChangeOrSave] using h _ hm
+
+/-- **exit_nonzero**: after a bad reply the run ends by abort (exit status 1) — or, for the
+PAN-OS job poll only, does not end at all (see `panos_commit_poll_total`). -/
+theorem exit_nonzero_partial (b : Backend) (env : Env)
+    (hf : faulted (badChecked b) (runProg b env).tr = true) (hd : (runProg b env).mode ≠ .diverge) :
+    exitCode (runProg b env) = 1 := by
+  rcases exit_of_faulted b env hf with h | h
+  · simp [exitCode, h]
+  · exact absurd h hd
+
+/-- **status_failed_or_diff**: `do-approve` then records FAILED (approve) or DIFF (compare),
+whatever the status file said before. -/
+theorem status_failed_or_diff_partial (b : Backend) (env : Env) (prev : Status) (policy : String) (now : Nat)
+    (hf : faulted (badChecked b) (runProg b env).tr = true) (hd : (runProg b env).mode ≠ .diverge) :
+    (doApprove false prev policy now (runProg b env).tr (exitCode (runProg b env))).status.approve.result = "FAILED"
+    ∧ (doApprove true prev policy now (runProg b env).tr (exitCode (runProg b env))).status.compare.result = "DIFF" := by
+  rw [exit_nonzero_partial b env hf hd]
+  exact ⟨doApprove_failed_approve _ _ _ _, doApprove_failed_compare _ _ _ _⟩
+
+/-- **history_end_failed** and the exit status of `do-approve` itself. -/
+theorem history_end_failed_partial (b : Backend) (env : Env) (isCompare : Bool) (prev : Status) (policy : String)
+    (now : Nat) (hf : faulted (badChecked b) (runProg b env).tr = true) (hd : (runProg b env).mode ≠ .diverge) :
+    (doApprove isCompare prev policy now (runProg b env).tr (exitCode (runProg b env))).endMsg = "FAILED"
+    ∧ (doApprove isCompare prev policy now (runProg b env).tr (exitCode (runProg b env))).exit = 1 := by
+  rw [exit_nonzero_partial b env hf hd]
+  exact ⟨(doApprove_failed_exit _ _ _ _ _).2, (doApprove_failed_exit _ _ _ _ _).1⟩
+
+/-- **ok_only_if_all_accepted**: a run that ends, and after which `do-approve` exits 0 / records OK,
+has seen only good replies wherever the code inspects them: every change command accepted
+(echo right, no output besides notices), every exit status 0, every save step confirmed, every
+HTTP reply 200 and well-formed. -/
+theorem ok_only_if_all_accepted_partial (b : Backend) (env : Env) (isCompare : Bool) (prev : Status)
+    (policy : String) (now : Nat) (hd : (runProg b env).mode ≠ .diverge)
+    (hok : (doApprove isCompare prev policy now (runProg b env).tr (exitCode (runProg b env))).exit = 0) :
+    faulted (badChecked b) (runProg b env).tr = false := by
+  have h0 : exitCode (runProg b env) = 0 := (doApprove_ok_iff _ _ _ _ _ _).mp hok
+  cases hf : faulted (badChecked b) (runProg b env).tr with
+  | false => rfl
+  | true => rw [exit_nonzero_partial b env hf hd] at h0; cases h0
+
+/-! ## termination -/
+
+/-- ASA, Linux, NSX: the programs contain no loop whose end depends on the device. -/
+theorem run_terminates_loopfree (b : Backend) (hb : b = .asa ∨ b = .linux ∨ b = .nsx) (env : Env) :
+    (runProg b env).mode ≠ .diverge := by
+  unfold runProg
+  rcases hb with rfl | rfl | rfl <;> exact noLoop_mode _ (by decide) env _ (by simp)
+
+/-- one round of the PAN-OS job poll (the body of the `for { … }` in `commit`) -/
+def panosPollRound : Sess :=
+  panosDoCmd .save (.lit "show jobs") ;;
+  .ite .err "err != nil" (.ret .keep ["err"]) .skip ;;
+  xmlUnmarshal ;;
+  .ite .err "err != nil" (.ret .keep ["err"]) .skip ;;
+  .ite (.flag .pend) "s.Result == \"PEND\"" .cont
+    (.ite (.flag .jobOk) "s.Result == \"OK\"" (.ret .nil ["nil"]) (.ret .err ["_"]))
+
+/-- the poll loop says `continue` only when the device answered PEND -/
+theorem panos_poll_continue_only_on_pend (env : Env) (s : St) (hs : s.mode = .run)
+    (hc : (exec panosPollRound env s).mode = .cont) : Flag.pend ∈ (exec panosPollRound env s).last.flags := by
+  unfold panosPollRound at *
+  rw [exec_seq] at hc ⊢
+  have hnc : (exec (panosDoCmd .save (.lit "show jobs")) env s).mode ≠ .cont :=
+    noCont_mode _ (by decide) env s (by rw [hs]; decide)
+  generalize exec (panosDoCmd .save (.lit "show jobs")) env s = s1 at hc hnc ⊢
+  by_cases hm1 : s1.mode = .run
+  · by_cases he : s1.errv = true
+    · simp [xmlUnmarshal, exec, hm1, evalCond, he] at hc
+    · have he' : s1.errv = false := by simpa using he
+      by_cases hw : Flag.wellFormed ∈ s1.last.flags
+      · by_cases hp : Flag.pend ∈ s1.last.flags
+        · simp [xmlUnmarshal, exec, hm1, evalCond, he', hw, hp]
+        · by_cases hok : Flag.jobOk ∈ s1.last.flags
+          · simp [xmlUnmarshal, exec, hm1, evalCond, he', hw, hp, hok] at hc
+          · simp [xmlUnmarshal, exec, hm1, evalCond, he', hw, hp, hok] at hc
+      · simp [xmlUnmarshal, exec, hm1, evalCond, he', hw] at hc
+  · rw [exec_nonrun _ _ _ hm1] at hc ⊢
+    -- a request never ends in mode `cont`
+    exact absurd hc hnc
+
+/-- **The PAN-OS commit poll loop is total only under an explicit hypothesis**: if within the
+fuel some round is answered by something other than PEND (`hstop`: that round does not say
+`continue`), the loop ends.  A device that answers PEND for ever makes the real program loop for
+ever (no overall timeout in `commit`); this is outside the listed fault kinds. -/
+theorem panos_commit_poll_total (env : Env) (s : St) (hs : s.mode = .run) (k : Nat) (hk : k < env.fuel)
+    (hstop : (exec panosPollRound env (rounds (exec panosPollRound env) k s)).mode ≠ .cont) :
+    (exec (.loopFuel panosPollRound) env s).mode ≠ .diverge := by
+  simp only [exec]
+  refine iter_total _ (fun st hst => ⟨leaves_mode _ (by decide) env st hst, noLoop_mode _ (by decide) env st ?_⟩) _ s hs k hk hstop
+  rw [hst]; decide
+
+/-- the loop of the model is the loop of the program -/
+theorem panosPollRound_is_commit_loop : ∃ pre, panosCommitBody = (pre ;; .loopFuel panosPollRound) ∨
+    ∃ a b c, panosCommitBody = (a ;; b ;; c ;; .loopFuel panosPollRound) := by
+  exact ⟨.skip, Or.inr ⟨_, _, _, rfl⟩⟩
+
+
+/-! ## the property as stated is false of the unchanged code: three classes of counterexamples -/
+
+/-- F-C09a.  IOS, one change command.  The device answers `configure terminal` (sent by
+`ApplyCommands` with `SendCmd`, reply number 18) with error text.  The code does not look at it:
+the change command is sent, the configuration is saved, the run exits 0. -/
+def envIosConfTRejected : Env :=
+  { dev := mkDev .ios {} (some 18) "errtext", plan := fun _ => [["ip route 10.20.0.0 255.255.0.0 10.1.2.3"]] }
+
+set_option maxRecDepth 100000 in
+theorem no_change_after_fault_counterexample_ios :
+    safe (badFull .ios) (runProg .ios envIosConfTRejected).tr = false
+    ∧ exitCode (runProg .ios envIosConfTRejected) = 0
+    ∧ saveConfirmed (runProg .ios envIosConfTRejected).tr = true
+    ∧ faulted (badChecked .ios) (runProg .ios envIosConfTRejected).tr = false := by decide
+
+/-- F-C09b.  ASA.  The device answers `write term` (reply number 12) with error text; the text is
+parsed as a configuration without any known command, i.e. as an empty device, and the complete
+target configuration (`plan false`) is pushed and saved; exit 0. -/
+def envAsaRetrievalRejected : Env :=
+  { dev := mkDev .asa {} (some 12) "errtext",
+    plan := fun genuine => if genuine then [["no route inside 10.1.0.0 255.255.0.0 10.1.2.3"], ["route inside 10.3.0.0 255.255.0.0 10.1.2.3"]]
+                           else [["route inside 10.2.0.0 255.255.0.0 10.1.2.3"], ["route inside 10.3.0.0 255.255.0.0 10.1.2.3"]] }
+
+set_option maxRecDepth 100000 in
+theorem config_retrieval_counterexample_asa :
+    safe (badFull .asa) (runProg .asa envAsaRetrievalRejected).tr = false
+    ∧ exitCode (runProg .asa envAsaRetrievalRejected) = 0
+    ∧ changeSends (runProg .asa envAsaRetrievalRejected).tr
+        = [["route inside 10.2.0.0 255.255.0.0 10.1.2.3"], ["route inside 10.3.0.0 255.255.0.0 10.1.2.3"]]
+    ∧ faulted (badChecked .asa) (runProg .asa envAsaRetrievalRejected).tr = false := by decide
+
+/-- F-C09c.  PAN-OS, two set commands.  The device closes the (reused) connection instead of
+answering the commit request (request number 6).  net/http replays the GET: `commit` is sent a
+second time, the run ends OK. -/
+def envPanosCommitClosed : Env :=
+  { dev := mkDev .panos {} (some 6) "close", plan := fun _ => [["set a"], ["set b"]], fuel := 5 }
+
+set_option maxRecDepth 100000 in
+theorem closed_connection_counterexample_panos :
+    safe (badFull .panos) (runProg .panos envPanosCommitClosed).tr = false
+    ∧ exitCode (runProg .panos envPanosCommitClosed) = 0
+    ∧ ((runProg .panos envPanosCommitClosed).tr.filter (· == Ev.sent .save ["commit"])).length = 2
+    ∧ faulted (badChecked .panos) (runProg .panos envPanosCommitClosed).tr = false := by decide
+
+/-! ## the hypotheses are satisfiable: failures the code inspects do occur and are caught -/
+
+/-- error text in the reply to the second half of a joined two-command line (ASA, reply 15) -/
+def envAsaSecondHalfRejected : Env :=
+  { dev := mkDev .asa {} (some 15) "errtext",
+    plan := fun _ => [["no route inside 10.1.0.0 255.255.0.0 10.1.2.3", "route inside 10.1.0.0 255.255.0.0 10.1.2.4"],
+                      ["route inside 10.3.0.0 255.255.0.0 10.1.2.3"]] }
+
+set_option maxRecDepth 100000 in
+example : faulted (badChecked .asa) (runProg .asa envAsaSecondHalfRejected).tr = true
+    ∧ exitCode (runProg .asa envAsaSecondHalfRejected) = 1
+    ∧ changeSends (runProg .asa envAsaSecondHalfRejected).tr
+        = [["no route inside 10.1.0.0 255.255.0.0 10.1.2.3", "route inside 10.1.0.0 255.255.0.0 10.1.2.4"]]
+    ∧ saveConfirmed (runProg .asa envAsaSecondHalfRejected).tr = false := by decide
+
+/-- IOS: silence in the middle of the script; only the deferred clean-up is sent afterwards -/
+def envIosSilence : Env :=
+  { dev := mkDev .ios {} (some 19) "silence", plan := fun _ => [["ip route a"], ["ip route b"]] }
+
+set_option maxRecDepth 100000 in
+example : faulted (badChecked .ios) (runProg .ios envIosSilence).tr = true
+    ∧ exitCode (runProg .ios envIosSilence) = 1
+    ∧ changeSends (runProg .ios envIosSilence).tr = [["ip route a"]]
+    ∧ (doApprove false {} "p1" 0 (runProg .ios envIosSilence).tr (exitCode (runProg .ios envIosSilence))).status.approve.result = "FAILED" := by
+  decide
+
+/-- PAN-OS: the commit job fails (third poll) -/
+def envPanosJobFails : Env :=
+  { dev := mkDev .panos { pend := 2 } (some 9) "jobfail", plan := fun _ => [["set a"], ["set b"]], fuel := 10 }
+
+set_option maxRecDepth 100000 in
+example : faulted (badChecked .panos) (runProg .panos envPanosJobFails).tr = true
+    ∧ exitCode (runProg .panos envPanosJobFails) = 1 ∧ (runProg .panos envPanosJobFails).mode ≠ .diverge := by decide
+
+/-- without a fault the run is OK, everything is sent and the save is confirmed -/
+def envAsaOk : Env := { dev := mkDev .asa {} none "-", plan := fun _ => [["route inside 10.3.0.0 255.255.0.0 10.1.2.3"]] }
+
+set_option maxRecDepth 100000 in
+example : exitCode (runProg .asa envAsaOk) = 0 ∧ saveConfirmed (runProg .asa envAsaOk).tr = true
+    ∧ changeSends (runProg .asa envAsaOk).tr = [["route inside 10.3.0.0 255.255.0.0 10.1.2.3"]] := by decide
+
+-- a device that answers PEND for ever: the model of the poll loop runs out of any fuel
+set_option maxRecDepth 100000 in
+example : (runProg .panos { dev := mkDev .panos { pend := 1000 } none "-", plan := fun _ => [["set a"]], fuel := 7 }).mode
+    = .diverge := by decide
 
 def obligations : List Lean.Name := [
-  ``skel_asa_ApplyCommands, ``skel_ios_ApplyCommands, ``skel_linux_ApplyCommands,
-  ``skel_panos_ApplyCommands, ``skel_nsx_ApplyCommands ]
+  ``no_change_after_fault_partial, ``no_save_after_fault_partial, ``exit_nonzero_partial,
+  ``status_failed_or_diff_partial, ``history_end_failed_partial, ``ok_only_if_all_accepted_partial,
+  ``run_terminates_loopfree, ``panos_poll_continue_only_on_pend, ``panos_commit_poll_total,
+  ``no_change_after_fault_counterexample_ios, ``config_retrieval_counterexample_asa,
+  ``closed_connection_counterexample_panos,
+  ``NA.Spec.C09.badChecked_imp_badFull,
+  ``skel_console_Send, ``skel_console_SendCmd, ``skel_console_IssueCmd, ``skel_console_GetCmdOutput,
+  ``skel_console_GetOutput, ``skel_console_waitPrompt, ``skel_console_WaitShort, ``skel_console_WaitLogin,
+  ``skel_console_expectLog, ``skel_console_StripEcho, ``skel_console_StripStdPrompt, ``skel_console_Close,
+  ``skel_errlog_HandleAbort, ``skel_errlog_Abort,
+  ``skel_asa_ApplyCommands, ``skel_asa_cmd, ``skel_asa_cmd_check, ``skel_asa_CloseConnection,
+  ``skel_ios_ApplyCommands, ``skel_ios_cmd, ``skel_ios_cmd_check, ``skel_ios_writeMem, ``skel_ios_prepareDevice,
+  ``skel_ios_scheduleReload, ``skel_ios_extendReload, ``skel_ios_sendReloadCmd, ``skel_ios_cancelReload,
+  ``skel_ios_CloseConnection,
+  ``skel_linux_ApplyCommands, ``skel_linux_cmd, ``skel_linux_cmd_check, ``skel_linux_writeStartupRouting,
+  ``skel_linux_writeStartupIPTables, ``skel_linux_findIPTablesRestoreCmd, ``skel_linux_writeStartup,
+  ``skel_linux_putScp, ``skel_linux_CloseConnection,
+  ``skel_panos_ApplyCommands, ``skel_panos_doCmd, ``skel_panos_commit, ``skel_panos_httpPrefixGetLog,
+  ``skel_panos_httpGet, ``skel_panos_CloseConnection,
+  ``skel_nsx_ApplyCommands, ``skel_nsx_sendRequest, ``skel_nsx_CloseConnection,
+  ``skel_device_ApproveOrCompare, ``skel_device_approve, ``skel_device_compare, ``skel_device_compareDevice,
+  ``skel_device_applyCommands, ``skel_device_showCompareInfo, ``skel_doapprove_Main,
+  ``skel_status_SetApprove, ``skel_status_SetCompare, ``skel_all_covered ]
 
 end NA.C09
